@@ -79,7 +79,9 @@ def run_case(case):
             core.check(len(t) >= 1, "output record without sn tag: %r", l)
             sns.append(t[-1][5:])
         present = set(sns) - {"unknown"}
-        core.check(set(ind.keys()) == present, "index keys %s, contigs present in the output %s", sorted(ind.keys()), sorted(present))
+        # an entry for every reference contig present; an entry for the 'unknown' bucket is neither required nor forbidden
+        core.check(set(ind.keys()) - {"unknown"} == present, "index keys %s, contigs present in the output %s",
+                   sorted(ind.keys()), sorted(present))
         nblocks = 1
         if case["bgzip_out"]:
             size = sum(len(l) + 1 for l in out)
